@@ -284,7 +284,7 @@ def run_part(ctx, prop):
     hs = harnesses(ctx.tier, prop)
     ctx.sharded(shard, extra=(prop,), nshards=len(hs), deadline=ctx.sub_deadline(0.5))
     ex = ctx.total.counters.get("executions", 0) - before
-    ctx.cov["e3_threads"] = {"schedules_explored": ex, "schedule_points": ctx.total.counters.get("schedule_points", 0), "PB": PB_of(ctx.tier),
+    ctx.cov["e3_threads"] = {"schedules_explored": ex, "coarse_executions": ctx.total.counters.get("coarse_executions", 0), "schedule_points": ctx.total.counters.get("schedule_points", 0), "PB": PB_of(ctx.tier),
                              "harnesses": [h.name for h in hs]}
     ctx.assumptions = list(ctx.assumptions) + [
         "E3 part: real-time scheduler (TimeoutScheduler / EventLoopScheduler) on the controlled clock, the source on its own controlled thread; "
